@@ -388,6 +388,10 @@ impl CompactionWorker {
                     new_level = compaction_manifest.level() + 1,
                     level_summary = db_fields_guard.version_set.level_summary()
                 );
+
+                // The input version must be released on this path too or it stays linked in the
+                // version set forever and keeps its table files from being reclaimed.
+                compaction_manifest.release_inputs(&mut db_fields_guard.version_set);
             } else {
                 let compaction_result = CompactionWorker::compact_tables(
                     db_state,
